@@ -51,7 +51,7 @@ fn candidates() -> Vec<String> {
         }
     }
     for a in ["", "ed25519", "curve25519", "signed_curve25519", "é", "a"] {
-        for k in ["", "x", "ABC", "a:b", "é", "_"] {
+        for k in ["", "x", "ABC", "a:b", "é", "_", "AAAA:BBBB", "a+/=", "a-b", ":", ":x", "x:"] {
             out.push(format!("{a}:{k}"));
         }
         out.push(a.to_owned());
@@ -62,6 +62,8 @@ fn candidates() -> Vec<String> {
         out.push(format!("!{}", "a".repeat(n - 1)));
         out.push(format!("#{}:a", "é".repeat((n - 3) / 2)));
         out.push(format!("{}:x", "a".repeat(n)));
+        out.push(format!("ed25519:{}:x", "a".repeat(n - 8)));
+        out.push(format!("ed25519:{}:é", "a".repeat(n - 8)));
         out.push(format!("mxc://{}/x", "a".repeat(n - 8)));
     }
     out.sort();
@@ -178,6 +180,35 @@ pub fn run(_tier: &str) -> Report {
                     }
                 }
             }
+            // key identifiers `<algorithm>:<key name>`: accepted exactly when the first ':' is at byte 1..=255 and the text after
+            // it is a valid key name of the type; the accessors split at that same ':'
+            {
+                let first = s.find(':').filter(|i| (1..=255).contains(i));
+                let name = first.map(|i| &s[i + 1..]);
+                let version_ok = |n: &str| !n.is_empty() && n.chars().all(|c| c.is_ascii_alphanumeric() || c == '_');
+                let b64_ok = |n: &str| !n.is_empty() && n.chars().all(|c| c.is_ascii_alphanumeric() || matches!(c, '+' | '/' | '='));
+                macro_rules! key_id {
+                    ($t:ty, $label:literal, $name_ok:expr) => {{
+                        let want = name.map($name_ok).unwrap_or(false);
+                        let got = <&$t>::try_from(s.as_str());
+                        let owned_ok = <ruma_common::OwnedKeyId<_, _>>::try_from(s.as_str()).map(|o: ruma_common::OwnedKeyId<_, _>| { let r: &$t = &o; r.as_str() == s }).unwrap_or(false);
+                        if got.is_ok() != want || owned_ok != want {
+                            fail(&mut f_forms, json!({"type": $label, "input": s, "accepted": got.is_ok(), "owned_form_accepted": owned_ok, "in_the_documented_set": want}));
+                        }
+                        if let Ok(k) = got {
+                            let i = first.unwrap_or(0);
+                            if k.algorithm().as_ref() != &s[..i] || k.key_name().as_str() != &s[i + 1..] || k.as_str() != s {
+                                fail(&mut f_parts, json!({"type": $label, "input": s, "algorithm": k.algorithm().as_ref(), "key_name": k.key_name().as_str()}));
+                            }
+                        }
+                    }};
+                }
+                key_id!(ruma_common::ServerSigningKeyId, "ServerSigningKeyId", version_ok);
+                key_id!(ruma_common::CrossSigningKeyId, "CrossSigningKeyId", b64_ok);
+                key_id!(ruma_common::DeviceSigningKeyId, "DeviceSigningKeyId", |_n: &str| true);
+                key_id!(ruma_common::OneTimeKeyId, "OneTimeKeyId", |_n: &str| true);
+                key_id!(DeviceKeyId, "DeviceKeyId", |_n: &str| true);
+            }
             if let Ok(k) = <&DeviceKeyId>::try_from(s.as_str()) {
                 let re = format!("{}:{}", k.algorithm(), k.key_name());
                 if re != *s || k.as_str() != s {
@@ -206,7 +237,7 @@ pub fn run(_tier: &str) -> Report {
         }
     }
     Report {
-        bound: format!("{} candidate strings (5 sigils x 9 localparts x 13 hosts x 10 ports, mxc and key id shapes, 253..256-byte boundaries) x 8 identifier types", cands.len()),
+        bound: format!("{} candidate strings (5 sigils x 9 localparts x 13 hosts x 10 ports, mxc and key id shapes, 253..256-byte boundaries) x 12 identifier types (incl. 5 key identifier types)", cands.len()),
         cases: n,
         obligations: vec![
             ("borrowed_owned_shared_and_serde_forms_agree_and_store_the_input", n, f_forms),
